@@ -1,7 +1,8 @@
 """Pristine child processes: run a function in a fork of the current process and get its pickled result back.
 
 Used for baselines and expectations that must be computed from process-wide state nobody has touched yet. The child is
-always killed and reaped (also when the parent is interrupted by the wall-clock backstop), and has its own deadline.
+always killed and reaped (also when the parent is interrupted by a backstop), and has its own backstops: CPU seconds
+(wall_s / 2, the verdict that does not depend on machine load) and wall-clock time (wall_s * 4, for a blocked child).
 """
 import os
 import pickle
@@ -24,6 +25,11 @@ def in_pristine_child(fn, wall_s=120, raise_errors=True):
     if pid == 0:
         os.close(r)
         try:
+            # CPU-time backstop inside the child (timers are not inherited across fork): default action of SIGPROF ends it
+            signal.signal(signal.SIGPROF, signal.SIG_DFL)
+            signal.signal(signal.SIGALRM, signal.SIG_DFL)
+            signal.setitimer(signal.ITIMER_REAL, 0)
+            signal.setitimer(signal.ITIMER_PROF, wall_s / 2.0)
             try:
                 res = ("ok", fn())
             except BaseException as e:      # noqa: BLE001
@@ -34,8 +40,10 @@ def in_pristine_child(fn, wall_s=120, raise_errors=True):
             os._exit(0)
     os.close(wfd)
     chunks = []
+    status = None
+    eof = False
     try:
-        deadline = time.monotonic() + wall_s
+        deadline = time.monotonic() + wall_s * 4
         while True:
             left = deadline - time.monotonic()
             if left <= 0:
@@ -44,16 +52,27 @@ def in_pristine_child(fn, wall_s=120, raise_errors=True):
             if rl:
                 b = os.read(r, 1 << 20)
                 if not b:
+                    eof = True
                     break
                 chunks.append(b)
     finally:
         os.close(r)
-        try:
-            os.kill(pid, signal.SIGKILL)
-        except ProcessLookupError:
-            pass
-        os.waitpid(pid, 0)
+        # a child that ended by itself (result written, or CPU backstop) is reaped as it is; anything else is killed
+        done, status = os.waitpid(pid, os.WNOHANG)
+        if done == 0:
+            t_end = time.monotonic() + (2.0 if eof else 0.0)
+            while done == 0 and time.monotonic() < t_end:
+                time.sleep(0.002)
+                done, status = os.waitpid(pid, os.WNOHANG)
+            if done == 0:
+                try:
+                    os.kill(pid, signal.SIGKILL)
+                except ProcessLookupError:
+                    pass
+                _, status = os.waitpid(pid, 0)
     if not chunks:
+        if status is not None and os.WIFSIGNALED(status) and os.WTERMSIG(status) == signal.SIGPROF:
+            raise ChildTimeout("child exceeded its CPU cap")
         raise HarnessBug("child died without a result")
     res = pickle.loads(b"".join(chunks))
     if res[0] != "ok":
